@@ -163,6 +163,19 @@ def run(ctx):  # noqa: C901
                 (t[1][1][1] == ("attr", ("n", "self"), "to_nonlocal_game") or (isinstance(t[1][1][1], str) and t[1][1][1].endswith("to_nonlocal_game")))
         ctx.ob("R-THREAD", f, f"delegates to to_nonlocal_game().{callee}()", ok, "same value as the converted general game" if ok else "does not delegate to the converted game")
 
+    # the converted game the values are delegated to: its value methods must leave the game object alone as well (a
+    # NonlocalGame obtained from to_nonlocal_game() is asked for several values in a row; an in-place weighting of its
+    # predicate makes every later value wrong)
+    ng = [c for c in m.classes.values() if c.name == "NonlocalGame"]
+    if ng:
+        from ..effects import effects_on_params
+        for name in ("classical_value", "nonsignaling_value", "commuting_measurement_value_upper_bound", "quantum_value_lower_bound"):
+            meth = ng[0].methods.get(name)
+            if meth is None:
+                continue
+            es = [e for e in effects_on_params(m, meth, [], self_is_owner=True) if e.target.startswith("self:")]
+            ctx.ob("R-EFFECT", meth, "no-write:self", not es, "converted game unchanged" if not es else f"`{es[0].text}` modifies the game object", es[0].node if es else None)
+
     # ---- quantum value SDP -----------------------------------------------------------------------------
     sk = Skeleton(m, qv)
     Nq = Normalizer(m, qv, inline=True)
@@ -358,6 +371,25 @@ def run(ctx):  # noqa: C901
                                     return True
                 return False
             datadep = [lp for lp in loops if _value_dep(lp.iter)]
+            # data-dependent skips: `if <coefficient test>: continue` ahead of the accumulation, or the accumulation nested under
+            # such a test -- same effect as a data-dependent iterator
+            skips = []
+            for lp in loops:
+                for st in lp.body:
+                    if any(x is acc for x in ast.walk(st)):
+                        if isinstance(st, ast.If) and _value_dep(st.test):
+                            skips.append(st)
+                        break
+                    if isinstance(st, ast.If) and _value_dep(st.test) and any(isinstance(x, (ast.Continue, ast.Break)) for x in ast.walk(st)):
+                        skips.append(st)
+            par_ifs = [n_ for n_ in walk_no_nested(bm.node) if isinstance(n_, ast.If) and any(x is acc for x in ast.walk(n_)) and _value_dep(n_.test)
+                       and any(any(y is n_ for y in ast.walk(lp)) for lp in loops)]
+            skips += [x for x in par_ifs if x not in skips]
+            if skips and not datadep:
+                ctx.ob("R-ENUM", bm, "objective accumulates over all outcomes (2 x 2) and all setting pairs (m x m)", False,
+                       f"`if {unparse(skips[0].test)[:50]}:` (line {skips[0].lineno}) skips setting pairs according to the coefficient values: the marginal terms a_coe[x], b_coe[y] "
+                       "ride on the pairs (x, 1) and (1, y) and are dropped with them when that joint coefficient is zero", skips[0])
+                break
             okc = len(full_m) == 2 and len(two) == 2 and not datadep
             ctx.ob("R-ENUM", bm, "objective accumulates over all outcomes (2 x 2) and all setting pairs (m x m)", True if okc else False if (datadep or len(loops) < 4 or all(t[0] == "call" and t[1] == "builtins.range" for t in its)) else None,
                    "four nested full ranges" if okc else
